@@ -68,6 +68,11 @@ PROPS['C09'] = stream_prop(['op.res', 'hdrs', 'writer'], [],
 PROPS['C17'] = stream_prop(['hdrs', 'writer', 'op.res'], [],
     '21 Accept-Encoding values (absent, empty, gzip/identity/* with weights, other codings, malformed) x gzip level 0..9 x chunk sizes {1,7,4096} x methods {GET, HEAD, POST} x {Request, Parts} (a third sampled per seed in the quick tier); the body is decoded according to the Content-Encoding header and compared with the payload.' + GEN_NOTE)
 
+PROPS['C19'] = dict(engine='dir', fields=['result'], trivial_tags=[],
+    rule='all paths of <= 3 (quick) / 4 (thorough) segments over {a, sub, .., ., ..., ..a, a.., empty, secret} joined by "/" with optional leading/trailing slash (quick: sampled over auto_gzip/Accept-Encoding), NUL injected at every position of the short ones, named cases around .gz siblings, .gz directories and missing files, against a real directory tree (plain files, .gz siblings, a .gz directory, a .gz without plain file, a secret outside the base) x Accept-Encoding {absent, gzip, identity, gzip;q=0, *} x auto_gzip on/off. The openat results the model consumes are obtained by the harness itself with libc::openat + fstat on its own base fd.' + GEN_NOTE,
+    trusted_base=COMMON_TB + ['modelled, not verified: openat / fstat (oracle table obtained independently per case), kernel path resolution incl. symlinks (outside the model; the crate allows them), tokio spawn_blocking'],
+    assumptions=['the API takes &str: paths are UTF-8', 'symlink-free tree for the containment theorem'])
+
 def known_class(prop, specfail, known_here):
     """Returns the known-finding entry whose class contains this failing case, if any."""
     for k in known_here:
@@ -97,7 +102,7 @@ def relevant(field, patterns):
     return False
 
 def explore(prop, cfg, tier, seed, work, result, T):
-    if cfg['engine'] in ('serve', 'negot', 'stream'):
+    if cfg['engine'] in ('serve', 'negot', 'stream', 'dir', 'file'):
         return explore_lines(prop, cfg, tier, seed, work, result, T)
     raise RuntimeError('unknown engine')
 
